@@ -12,13 +12,14 @@ EXTENDS Naturals, Sequences, TLC, Json, IOUtils
 HB == 256
 G == 9
 B == 8
-INSTANCE MidenVM
+INSTANCE Lookups
 
 Events == ndJsonDeserialize(IOEnv.TRACE)
 N == Len(Events)
 
-VARIABLES l, vm, prog, stats
-vars == <<l, vm, prog, stats>>
+VARIABLES l, vm, prog, stats, lk        \* lk : requests issued so far (C12) [mem, bw, rc : sequences ; def : all defined]
+vars == <<l, vm, prog, stats, lk>>
+NoLk == [mem |-> <<>>, bw |-> <<>>, rc |-> <<>>, def |-> TRUE]
 
 \* JSON helpers: JSON arrays are sequences already; digests / words are sequences of 4 limb-sequences
 MkOps(ops) == [i \in 1 .. Len(ops) |-> [o |-> ops[i].o, c |-> ops[i].c, imm |-> ops[i].imm]]
@@ -31,7 +32,7 @@ MkNode(n) == IF n.k = "span" THEN [k |-> "span", h |-> n.h, ops |-> MkOps(n.ops)
 MkProg(pre) == [mast |-> MkNode(pre.mast), procs |-> [i \in 1 .. Len(pre.procs) |-> [h |-> pre.procs[i].h, node |-> MkNode(pre.procs[i].node)]],
                 kernel |-> pre.kernel, hash |-> pre.hash, dynhash |-> pre.dynhash]
 
-Init == l = 1 /\ vm = [none |-> TRUE] /\ prog = [none |-> TRUE] /\ stats = [rows |-> 0, runs |-> 0]
+Init == l = 1 /\ vm = [none |-> TRUE] /\ prog = [none |-> TRUE] /\ stats = [rows |-> 0, runs |-> 0] /\ lk = NoLk
 
 Pre == /\ l >= 1 /\ l <= N /\ Events[l].e = "pre"
        /\ IF "mast" \in DOMAIN Events[l]
@@ -39,7 +40,7 @@ Pre == /\ l >= 1 /\ l <= N /\ Events[l].e = "pre"
                  /\ prog' = p
                  /\ vm' = InitVm(p, Events[l].inputs, Events[l].init_ovf)
             ELSE prog' = [none |-> TRUE] /\ vm' = [none |-> TRUE]
-       /\ l' = l + 1 /\ stats' = [stats EXCEPT !.runs = @ + 1]
+       /\ l' = l + 1 /\ stats' = [stats EXCEPT !.runs = @ + 1] /\ lk' = NoLk
 
 \* fields of the recorded row that differ from the state / the predicted row
 Diffs(ev, r) ==
@@ -67,13 +68,20 @@ RowEv == /\ l >= 1 /\ l <= N /\ Events[l].e = "row"
             \E nxt \in {IF l < N /\ Events[l + 1].e = "row" THEN Events[l + 1].s ELSE [i \in 1 .. 16 |-> F0]} :
             \E r \in {Step(vm, [next |-> IF "perm" \in DOMAIN ev THEN ev.perm \o SubSeq(nxt, 13, 16) ELSE nxt], prog)} :
               IF r.ok # "ok"
-                 THEN /\ PrintT(<<"REJECT", l, "spec cannot step", r>>) /\ l' = 0 /\ UNCHANGED <<vm, prog, stats>>
+                 THEN /\ PrintT(<<"REJECT", l, "spec cannot step", r>>) /\ l' = 0 /\ UNCHANGED <<vm, prog, stats, lk>>
                  ELSE \E d \in {Diffs(ev, r)} :
                       IF d # {}
                         THEN /\ PrintT(<<"REJECT", l, "t", ev.t, "op", ev.op, "fields", d, "expected_row", r.row,
                                          "spec_state", [clk |-> vm.clk, ctx |-> vm.ctx, b0 |-> Len(vm.stack), b1 |-> B1(vm), top |-> SubSeq(vm.stack, 1, 4)]>>)
-                             /\ l' = 0 /\ UNCHANGED <<vm, prog, stats>>
+                             /\ l' = 0 /\ UNCHANGED <<vm, prog, stats, lk>>
                         ELSE /\ vm' = r.vm /\ l' = l + 1 /\ stats' = [stats EXCEPT !.rows = @ + 1] /\ UNCHANGED prog
+                             \* requests this row sends to the chiplets / range checker, computed from the specification's state
+                             /\ \E e2 \in {[next |-> IF "perm" \in DOMAIN ev THEN ev.perm \o SubSeq(nxt, 13, 16) ELSE nxt]} :
+                                  lk' = IF r.row.sp = 1
+                                          THEN [mem |-> lk.mem \o MemReqs(vm, r.row.op, e2), bw |-> lk.bw \o BwReqs(vm, r.row.op),
+                                                rc |-> lk.rc \o (IF RcDefined(vm, r.row.op) THEN RcReqs(vm, r.row.op) ELSE <<>>),
+                                                def |-> lk.def /\ RcDefined(vm, r.row.op)]
+                                          ELSE lk
 
 \* the specification running on its own (no recorded inputs) until it halts, fails or runs out of fuel
 RECURSIVE FreeRun(_, _)
@@ -87,9 +95,19 @@ FreeRun(v, fuel) ==
 EndEv == /\ l >= 1 /\ l <= N /\ Events[l].e = "end"
          /\ \E ev \in {Events[l]} :
             IF ev.outcome = "ok" /\ "none" \notin DOMAIN vm
-              THEN \E bad \in {{f \in {"halt", "out_stack"} :
+              THEN \E bad \in {{f \in {"halt", "out_stack", "lk_memory", "lk_bitwise", "lk_range", "lk_hasher_rows"} :
                                  CASE f = "halt" -> vm.todo.do # "halt"
-                                   [] f = "out_stack" -> ev.out_stack # vm.stack}} :
+                                   [] f = "out_stack" -> ev.out_stack # vm.stack
+                                   \* lookups balance (C12): what the chiplets / range checker provide is what the operations requested
+                                   [] f = "lk_memory" -> "chip" \in DOMAIN ev /\ ~BagEq(lk.mem, [i \in 1 .. Len(ev.chip.mem) |->
+                                          [ctx |-> ev.chip.mem[i][1], a |-> ev.chip.mem[i][2], clk |-> ev.chip.mem[i][3], rd |-> ev.chip.mem[i][4], w |-> ev.chip.mem[i][5]]])
+                                   [] f = "lk_bitwise" -> "chip" \in DOMAIN ev /\ ~BagEq(lk.bw, [i \in 1 .. Len(ev.chip.bw) |->
+                                          [sel |-> ev.chip.bw[i][1], a |-> ev.chip.bw[i][2], b |-> ev.chip.bw[i][3], z |-> ev.chip.bw[i][4]]])
+                                   [] f = "lk_range" -> "chip" \in DOMAIN ev /\ lk.def /\
+                                          LET req == lk.rc \o ev.chip.memd  tab == ev.chip.range IN
+                                          \/ \E i \in 1 .. Len(tab) : Count(req, tab[i][1]) # tab[i][2]
+                                          \/ \E j \in 1 .. Len(req) : \A i \in 1 .. Len(tab) : tab[i][1] # req[j]
+                                   [] f = "lk_hasher_rows" -> "chip" \in DOMAIN ev /\ ev.chip.hasher_rows # vm.hrows}} :
                    IF bad # {} THEN PrintT(<<"REJECT", l, "end", bad>>) /\ l' = 0
                       ELSE l' = l + 1
             ELSE IF ev.outcome = "err" /\ "none" \notin DOMAIN vm
@@ -98,9 +116,9 @@ EndEv == /\ l >= 1 /\ l <= N /\ Events[l].e = "end"
                    ELSE PrintT(<<"REJECT", l, "end", "spec outcome", [ok |-> fr.ok, kind |-> IF fr.ok = "fail" THEN fr.kind ELSE ""], "recorded", ev.err.kind>>) /\ l' = 0
             ELSE IF ev.outcome = "panic" THEN PrintT(<<"REJECT", l, "end", "panic", ev.msg>>) /\ l' = 0
             ELSE l' = l + 1
-         /\ UNCHANGED <<vm, prog, stats>>
+         /\ UNCHANGED <<vm, prog, stats, lk>>
 
-Done == l = N + 1 /\ PrintT(<<"ACCEPT", stats>>) /\ l' = N + 2 /\ UNCHANGED <<vm, prog, stats>>
+Done == l = N + 1 /\ PrintT(<<"ACCEPT", stats>>) /\ l' = N + 2 /\ UNCHANGED <<vm, prog, stats, lk>>
 Next == Pre \/ RowEv \/ EndEv \/ Done
 View == l
 =============================================================================
